@@ -7,12 +7,12 @@
 EXTENDS Population, Json
 CONSTANTS Deep, Rounds
 VARIABLES c, n
-Covered(ch) == ~ch.aux /\ ~(ch.ts.k = "chain" /\ ch.ts.of = "select") /\ "nm" \notin DOMAIN ch
+Covered(ch) == ~ch.aux /\ ch.inh # "noents" /\ ~(ch.ts.k = "chain" /\ ch.ts.of = "select") /\ "nm" \notin DOMAIN ch
 ReadKind(kd) == CASE kd = "INTEGER" -> "int" [] kd = "REAL" -> "real" [] kd = "NUMBER" -> "num" [] kd = "STRING" -> "str"
                   [] kd = "BINARY" -> "bin" [] kd = "BOOLEAN" -> "bool" [] kd = "LOGICAL" -> "log" [] kd = "enum" -> "enum"
                   [] kd = "entity" -> "ref" [] kd = "select" -> "sel" [] kd = "aggr" -> "li"
 PlacesOf(s, pop) == UNION {{[i |-> i, j |-> j, kind |-> ReadKind(KindOfRef(s, AttrAt(s, pop[i].ent, j).ty)),
-                              opt |-> AttrAt(s, pop[i].ent, j).opt, inherited |-> AttrOrder(s, pop[i].ent)[j].owner # pop[i].ent] :
+                              opt |-> EffOpt(s, pop[i].ent, AttrOrder(s, pop[i].ent)[j]), inherited |-> AttrOrder(s, pop[i].ent)[j].owner # pop[i].ent] :
                              j \in 1..Len(pop[i].params)} : i \in 1..Len(pop)}
 Init == c \in {ch \in Choices(Deep) : Covered(ch) /\ Conforming(Valid(ch))} /\ n \in 0..Rounds
 Next == UNCHANGED <<c, n>>
